@@ -276,8 +276,15 @@ func c13Body(e *Env) {
 			e.Probe("lin_checked")
 		}
 	}
-	// everything appended must come out; the un-ACKed suffix is redelivered after reopen
+	// both tasks are done: the counters must agree with the event history (C17)
 	p.Concurrent = false
+	if !p.rdActive {
+		p.checkCounters("after the concurrent phase")
+		if e.Failed() {
+			return
+		}
+	}
+	// everything appended must come out; the un-ACKed suffix is redelivered after reopen
 	pqFinish(e, p)
 	if e.Failed() {
 		return
